@@ -641,6 +641,7 @@ func (s *Service) truncate(ctx context.Context, jrnl journal.Journal, tp *Trunca
 		return n, isize - size, nil
 	}
 
+	verifhook.At("partition.truncate.chosen")
 	n, err = jrnl.Chunks().DeleteChunks(ctx, cks[idx].Id(), func(cid chunk.Id, filename string, err error) {
 		s.deleteChunk(filename)
 	})
